@@ -35,3 +35,18 @@ Theorem C19_oracle_table_is_spec input k :
   (k <= List.length input)%nat -> nth k (lc_table input) (O, O) = lc input k.
 Proof. exact (lc_table_spec input k). Qed.
 Print Assumptions C19_oracle_table_is_spec.
+
+(* ---- all tokens (text runs, strings, identifiers, numbers, directives, operators, braces;
+   comments skipped on the way): NextToken's answer starts and ends at the (line, column) of byte
+   offsets of the input, never before the position the lexer was at, a token that consumed input
+   ends strictly before the lexer's new position, and the counters remain the position function *)
+From TW Require Import LexerTokens.
+
+Theorem C19_every_token_is_exact input l t l' :
+  Inv input l -> nextTok l = Some (t, l') -> Tok input l t l'.
+Proof. exact (next_tok_exact input l t l'). Qed.
+Print Assumptions C19_every_token_is_exact.
+
+Theorem C19_token_list_is_exact_and_ordered input ts : lex_all input = Some ts -> chain input 0 ts.
+Proof. exact (all_tokens_exact_and_ordered input ts). Qed.
+Print Assumptions C19_token_list_is_exact_and_ordered.
